@@ -105,6 +105,21 @@ def obs_c05(o):
         subs.append({'concept_extent': list(c.extent), 'upper': up, 'lower': lo})
         if len({len(u.extent) for u in c.upper_neighbors}) >= 2 or o.cx.nG - len(c.extent) > len(c.upper_neighbors):
             nontrivial = True
+    # copies of the lattice keep the same links
+    if o.n <= 300:
+        import copy
+        import pickle
+        want = [(sorted(u.index for u in c.upper_neighbors), sorted(l.index for l in c.lower_neighbors)) for c in o.concepts]
+        for name, fn in (('pickle', lambda: pickle.loads(pickle.dumps(o.lattice))), ('deepcopy', lambda: copy.deepcopy(o.lattice))):
+            try:
+                cp = list(fn())
+                posc = {id(c): i for i, c in enumerate(cp)}
+                got = [(sorted(posc.get(id(u), 3999) for u in c.upper_neighbors), sorted(posc.get(id(l), 3999) for l in c.lower_neighbors)) for c in cp]
+            except Exception:  # noqa: BLE001
+                got = None
+            if got != want:
+                per.append((-1, natlist([3999]), natlist([])))
+                subs.append({'copy of the lattice': name, 'links': 'differ from the original'})
     queries = []
     limit = 6 if o.tier == 'quick' else 7
     for t in itertools.islice(gen.subsets(o.cx.nG, limit, o.r, extra=24), 1500):
@@ -426,12 +441,17 @@ def obs_c18(o):
             continue
         budget -= 1 << len(c.intent)
         def attrs_call():
-            full = [util.idx(a, cx.properties) for a in c.attributes()]
-            # two live iterators over the same concept must not disturb each other
+            # two live iterators over the same concept must not disturb each other (done before anything else
+            # has enumerated this concept, so that no completed result can be replayed)
             it1, it2 = c.attributes(), c.attributes()
             first = [next(it1, None)]
-            second = list(it2)
+            second = [next(it2, None), next(it2, None)]
+            first += [next(it1, None)]
+            second += list(it2)
             first += list(it1)
+            second = [a for a in second if a is not None]
+            first = [a for a in first if a is not None]
+            full = [util.idx(a, cx.properties) for a in c.attributes()]
             third = list(c.attributes())
             if [util.idx(a, cx.properties) for a in first if a is not None] != full or \
                [util.idx(a, cx.properties) for a in second] != full or [util.idx(a, cx.properties) for a in third] != full:
